@@ -26,7 +26,7 @@ def _node_class_of(call):
 
 
 
-def verbatim_first_read_paths(fn):
+def verbatim_first_read_paths(fn, methods=None):
     """Syntax-directed walk of a parser method: for every path from the entry to the first call that reads characters or
     tokens from the reader (next_chars / peek_chars / next_token / peek_token), yield (events before it, the reading call);
     events are ('SKIP', call) for skip_space_chars and ('POS', call) for cur_pos().  Both arms of every `if`, zero or one
@@ -50,6 +50,7 @@ def verbatim_first_read_paths(fn):
         return ('go', evs)
 
     out = []
+    depth = [0]
 
     def walk(stmts, evs):
         """returns list of event lists for paths that fall through"""
@@ -73,11 +74,24 @@ def verbatim_first_read_paths(fn):
                     r = scan(st, ev)
                     if r[0] == 'read':
                         out.append((r[1], r[2]))
+                    elif isinstance(st, ast.Return) and depth[0]:
+                        nxt.append(r[1])
                 elif isinstance(st, (ast.Try, ast.With)):
                     nxt.extend(walk(st.body, ev))
                 elif isinstance(st, (ast.FunctionDef, ast.ClassDef)):
                     nxt.append(ev)
                 else:
+                    # a statement that is one call of a method of the same class: its body is walked in place
+                    # (a `return` inside it ends that level of the helper only -- an approximation)
+                    v_ = getattr(st, 'value', None)
+                    if methods and isinstance(st, (ast.Expr, ast.Assign)) and isinstance(v_, ast.Call) and \
+                            isinstance(v_.func, ast.Attribute) and isinstance(v_.func.value, ast.Name) and \
+                            v_.func.value.id == 'self' and v_.func.attr in methods and methods[v_.func.attr] is not fn \
+                            and depth[0] < 2:
+                        depth[0] += 1
+                        nxt.extend(walk(methods[v_.func.attr].body, ev))
+                        depth[0] -= 1
+                        continue
                     r = scan(st, ev)
                     if r[0] == 'read':
                         out.append((r[1], r[2]))
@@ -821,7 +835,7 @@ def run(ctx):
     if vp_ is None:
         raise AnalysisError('anchor vanished: LatexDelimitedVerbatimParser.parse')
     n1x = 0
-    for evs_, rd_ in verbatim_first_read_paths(vp_):
+    for evs_, rd_ in verbatim_first_read_paths(vp_, vm_.methods('LatexDelimitedVerbatimParser')):
         kinds_ = [k_ for k_, _n in evs_]
         if 'POS' not in kinds_:
             continue
